@@ -7,26 +7,35 @@ MANIFEST_TEXT = ("Lean 4 theorems, for every lane count S, every scalar type and
                  "(so also IEEE arithmetic): each operator / cmath function that loop.hh lists (one generated lemma per row of the "
                  "macro invocation lists, over the per-lane loop shapes the translator reads off the DUNE_SIMD_LOOP_* macro bodies), "
                  "lane/cond/broadcast/mask reductions/nested lane numbering, and the defaults of defaults.hh (mask, maskOr/And, "
-                 "allTrue/anyFalse/allFalse through anyTrue, horizontal max/min, implCast) and Scalar/Rebind/lanes are lane-wise; the "
+                 "allTrue/anyFalse/allFalse through anyTrue, horizontal max/min, implCast) and Scalar/Rebind/lanes are lane-wise; a scalar "
+                 "operand of ANOTHER arithmetic type reaches every lane of a comparison, of && / || and of a shift in its own type (the "
+                 "declared parameter types are part of the translated shapes), a mask of another type selects by lane number in cond; the "
                  "LU-based determinant/solve/invert, all matrix-vector kernels (rectangular), left/rightmultiply and the matrix and "
                  "vector norms of densematrix.hh/densevector.hh, written once over a SimdLike structure with per-lane pivoting, return in "
                  "every lane what the same algorithm returns on that lane's data, including mixed singular/regular lanes (determinant) "
-                 "and 'throws iff some lane throws' (solve/invert) - for LoopSIMD<.,S> and for SIMD-of-SIMD (both instances proved "
-                 "lawful). Each run re-translates loop.hh/interface.hh/standard.hh/defaults.hh/DESIGN.md, re-checks the proofs, and runs "
-                 "LoopSIMD<T,S> (S in 1,2,3,4,8, T in float,double,int,long,short,unsigned,bool,complex, nested, over-aligned), a minimal "
-                 "SIMD type living on the defaults, and FieldMatrix/FieldVector/DynamicMatrix of LoopSIMD<double,S>, LoopSIMD<float,4> and "
-                 "LoopSIMD<LoopSIMD<double,2>,2> against the scalar operation per lane by bit pattern and against the Lean model "
-                 "(bit-exact, Float/Float32 = IEEE double/single).")
+                 "and 'throws iff some lane throws' (solve/invert) - in the default configuration AND with DUNE_FMatrix_WITH_CHECKING (the "
+                 "singularity tests of the closed forms are executed from the table translated from densematrix.hh), for LoopSIMD<.,S> and "
+                 "for SIMD-of-SIMD (both instances proved lawful). Each run re-translates loop.hh/interface.hh/standard.hh/defaults.hh/"
+                 "densematrix.hh/DESIGN.md, re-checks the proofs, and runs LoopSIMD<T,S> (S in 1,2,3,4,8, T in float,double,int,long,short,"
+                 "unsigned,bool,complex, nested, over-aligned, 49 lane-type x scalar-type pairs), a minimal SIMD type living on the defaults, "
+                 "and FieldMatrix/FieldVector/DynamicMatrix of LoopSIMD<double,S>, LoopSIMD<float,4> and LoopSIMD<LoopSIMD<double,2>,2> in "
+                 "both configurations (two translation units) against the scalar operation per lane by bit pattern and against the Lean "
+                 "model (bit-exact, Float/Float32 = IEEE double/single).")
 MANIFEST_NOTE = ("Trusted: Lean kernel (+propext/Classical.choice/Quot.sound), tr_c09.py, fidelity of the hand-written dense-matrix "
-                 "model (differential runs only), Lean's Float/Float32 = IEEE binary64/32 for + - * / < == fabs sqrt, g++/libm/ASan/UBSan. "
-                 "cmath functions are uninterpreted in the model (their table travels on the op line); NaN payload/sign is canonicalised; "
-                 "for solve/invert the property is read as: the SIMD call throws FMatrixError iff the scalar call throws for some lane, "
-                 "otherwise all lanes agree bitwise. The DUNE_FMatrix_WITH_CHECKING configuration and complex multiplication/division are not "
-                 "modelled. Three genuine defects found by this check were repaired in /repo (fixes/C09_*.patch = "
-                 "commits 4bc4257, 463b852, 1d9eacd); the model describes the repaired code. -O0 and a reduced UBSan set (without "
-                 "null/alignment/vptr/pointer-overflow/object-size) are used for the harness because ~45 vector types x all operators + "
-                 "~60 matrix/vector types take > 2 min to compile at -O1 with all sanitizers.")
-TECHNIQUE = "Lean 4 proof over translated loop shapes + SimdLike-generic LU/kernel model (loop and nested instances proved lawful); translator for operator tables, defaults.hh and type functions; differential correspondence with per-lane scalar oracle (bitwise)"
+                 "model (differential runs only), Lean's Float/Float32 = IEEE binary64/32 for + - * / < == fabs sqrt and int<->float "
+                 "conversions, g++/libm/ASan/UBSan. cmath functions are uninterpreted in the model (their table travels on the op line); "
+                 "NaN payload/sign is canonicalised; for solve/invert the property is read as: the SIMD call throws FMatrixError iff the "
+                 "scalar call throws for some lane, otherwise all lanes agree bitwise. Scalar operands of another arithmetic type: for the "
+                 "mask-valued operators and shifts lane l must be the built-in mixed-type expression lane(l,v) @ s; the arithmetic operators "
+                 "and compound assignments are declared with Simd::Scalar<T> (the call converts the argument, simd/DESIGN.md Note 2 lets a SIMD "
+                 "type stay in its own type) and get same-type scalars only. The checked configuration is compiled as a second translation "
+                 "unit with the library renamed to another namespace (#define Dune DuneChk) to keep both configurations in one binary. "
+                 "complex multiplication/division, the _OPENMP pragma configuration and DiagonalMatrix are not modelled. Five genuine defects "
+                 "found by this check were repaired in /repo (fixes/C09_*.patch = commits 4bc4257, 463b852, 1d9eacd, 85bd095, 7a78e57); the "
+                 "model describes the repaired code. -O0 and a reduced UBSan set (without null/alignment/vptr/pointer-overflow/object-size) "
+                 "are used for the harness because ~55 vector types x all operators + ~75 matrix/vector types take > 2 min to compile at -O1 "
+                 "with all sanitizers.")
+TECHNIQUE = "Lean 4 proof over translated loop shapes (incl. declared operand types) + SimdLike-generic LU/kernel model (loop and nested instances proved lawful, checked configuration executed from the translated test table); translator for operator tables, defaults.hh, type functions and the densematrix.hh singularity tests; differential correspondence in two build configurations with per-lane scalar oracle (bitwise)"
 TRANSLATORS = [tr_c09.translate]
 HARNESS = dict(
     # cxx_c09_chk.cc: the same headers once more with DUNE_FMatrix_WITH_CHECKING defined (library renamed to another namespace)
@@ -42,23 +51,34 @@ RULE = ("cases: operator/function x scalar type {f32,f64,i32,i64,i16,u32,bool,co
         "abstraction layer (lane incl. rvalue, lane assignment, cond, mask reductions with one deviating lane, broadcast, max/min, mask*, "
         "implCast, lanes/Scalar/Rebind), the same through a minimal SIMD type that only has the defaults of defaults.hh, over-aligned "
         "LoopSIMD, shifts by a vector of another type, operators whose scalar operand is a lane of the vector operand itself "
-        "(v OP= lane(k, v): aliasing); matrices n=1..6 (DynamicMatrix 1..8) over LoopSIMD<double,{1,2,3,4,8}>, LoopSIMD<float,4>, "
-        "LoopSIMD<LoopSIMD<double,2>,2>, each lane an independent recipe (random, scaled permutation, zero column, duplicate/dependent "
-        "rows, ties, powers of two, zero) so lanes need different pivot rows and some are singular; rectangular kernels "
-        "mv/mtv/umv/umtv/mmv/mmtv/usmv/usmtv, left/rightmultiply, matrix and vector norms, dot, axpy; distinct = distinct op lines; "
-        "non-trivial = the per-lane scalar oracle compared a result")
+        "(v OP= lane(k, v): aliasing); scalar operands of another arithmetic type (binx: 7 lane types x 7 scalar types, comparisons/&&/|| in "
+        "both operand orders, shifts; the scalar equal to a lane, off by one, a fraction / a float rounding error off, congruent modulo "
+        "2^8/2^16/2^32, negative against unsigned, 2^24+1, 2^53+1), cond with a flat / nested / over-aligned mask of another type, maskOr/And "
+        "of two vector types, broadcast of a scalar of another type (layx); matrices n=1..6 (DynamicMatrix 1..8) over "
+        "LoopSIMD<double,{1,2,3,4,8}>, LoopSIMD<float,4>, LoopSIMD<LoopSIMD<double,2>,2>, each lane an independent recipe (random, scaled "
+        "permutation, zero column, duplicate/dependent rows, ties, powers of two, zero) so lanes need different pivot rows and some are "
+        "singular; the same solve/invert in the configuration DUNE_FMatrix_WITH_CHECKING (matc: n=1..4, absolute_limit in {1e-80,1e-6,0.5,1,2.5,8} "
+        "set per case, one lane on the other side of the test); rectangular kernels mv/mtv/umv/umtv/mmv/mmtv/usmv/usmtv, left/rightmultiply, "
+        "matrix and vector norms, dot, axpy; distinct = distinct op lines; non-trivial = the per-lane scalar oracle compared a result")
 ASSUMPTIONS = [
-    "the loop shapes, operator lists, the scalar cond/reductions, the defaults of defaults.hh and Scalar/Rebind/LaneCount are regenerated "
-    "from the source by tools/translators/tr_c09.py; the dense-matrix model lean/DuneVerif/Model/C09LU.lean + C09X.lean is hand-written, "
-    "its fidelity rests on this differential run",
+    "the loop shapes (incl. the declared type of every scalar parameter), operator lists, the scalar cond/reductions, the defaults of "
+    "defaults.hh, Scalar/Rebind/LaneCount and the singularity tests of the checked configuration (densematrix.hh) are regenerated "
+    "from the source by tools/translators/tr_c09.py; the rest of the dense-matrix model lean/DuneVerif/Model/C09LU.lean + C09X.lean is "
+    "hand-written, its fidelity rests on this differential run",
     "Lean Float/Float32 arithmetic (+ - * / < == abs sqrt) is IEEE binary64/binary32 (checked bit for bit against the C++ results in every run); "
     "the compiler does not contract a*b+c into fma (no -mfma / -ffast-math in the harness build)",
     "NaN payloads and signs are canonicalised on both sides; integer operands are restricted to defined behaviour (no signed overflow, "
     "no division by zero, shift counts in range); short is computed in int and wraps on conversion, unsigned wraps",
     "cmath functions are compared lane vs std:: call inside the harness; in the model they are uninterpreted (table on the op line)",
-    "not modelled: the DUNE_FMatrix_WITH_CHECKING configuration, complex multiplication/division, Vc-based SIMD types (vc.hh)",
+    "a scalar operand of another arithmetic type is given to the operators that are generic in it (comparisons, && ||, shifts) and must "
+    "reach the lanes unconverted; the arithmetic operators / compound assignments (declared with Simd::Scalar<T>) get same-type scalars only; "
+    "mixed-type comparisons follow the usual arithmetic conversions of C++ on x86-64 (float->integer conversions out of range are not generated "
+    "where they would be undefined)",
+    "the checked configuration lives in a second translation unit in which every token `Dune` is renamed (one binary, no ODR clash); "
+    "FMatrixPrecision<>::absolute_limit() is set per case",
+    "not modelled: complex multiplication/division, Vc-based SIMD types (vc.hh), the _OPENMP (omp simd pragma) configuration, DiagonalMatrix",
 ]
-TRUSTED = ["g++/libstdc++/libm, ASan/UBSan", "translator tr_c09.py", "harness/cxx_c09.cc (per-lane scalar oracle) + Driver/C09.lean parsing/printing"]
+TRUSTED = ["g++/libstdc++/libm, ASan/UBSan", "translator tr_c09.py", "harness/cxx_c09.cc + harness/cxx_c09_chk.cc (per-lane scalar oracle) + Driver/C09.lean parsing/printing and C++ conversion rules"]
 
 
 def batches(tier, seed):
